@@ -337,6 +337,50 @@ class Mutator:
         except SyntaxError:
             return None
 
+    def _mutate_struct(self, tree, cls) -> tuple[str, str] | None:
+        """one mutation of a `@guppy.struct` class definition"""
+        r = self.rng
+        fields = [n for n in cls.body if isinstance(n, ast.AnnAssign)]
+        k = r.choice(["annot", "annot", "dup", "default", "plain_assign", "base", "method_named_field", "empty", "self_ref", "nested_class",
+                      "undecorated_method", "deco", "generic_unused", "del_field"])
+        if k == "annot" and fields:
+            r.choice(fields).annotation = ast.parse(r.choice(ANNOTS), mode="eval").body
+        elif k == "dup" and fields:
+            cls.body.append(copy.deepcopy(r.choice(fields)))
+        elif k == "default" and fields:
+            r.choice(fields).value = ast.parse(r.choice(["1", "zz", "qubit()", "None"]), mode="eval").body
+        elif k == "plain_assign":
+            cls.body.append(ast.parse("y9 = 1").body[0])
+        elif k == "base":
+            cls.bases.append(ast.parse(r.choice(["int", "object", "zz" if False else "Exception", cls.name if False else "dict",
+                                                 "__import__('typing').Generic[__import__('guppylang').guppy.type_var('B9')]"]), mode="eval").body)
+        elif k == "method_named_field" and fields:
+            nm = fields[0].target.id if isinstance(fields[0].target, ast.Name) else "x"
+            cls.body.append(ast.parse(f"@guppy\ndef {nm}(self: '{cls.name}') -> int:\n    return 1").body[0])
+        elif k == "empty":
+            cls.body = [ast.Pass()]
+        elif k == "self_ref" and fields:
+            r.choice(fields).annotation = ast.Constant(r.choice([cls.name, f"tuple[{cls.name}, int]", f"array[{cls.name}, 2]", f"{cls.name}[int]"]))
+        elif k == "nested_class":
+            cls.body.append(ast.parse("class I9:\n    z: int").body[0])
+        elif k == "undecorated_method":
+            cls.body.append(ast.parse("def m9(self) -> int:\n    return 1").body[0])
+        elif k == "deco":
+            cls.decorator_list = [ast.parse(r.choice(["guppy", "guppy.struct()", "guppy.struct", "guppy.declare", "guppy.comptime"]), mode="eval").body]
+        elif k == "generic_unused":
+            cls.body.insert(0, ast.parse("u9: 'U9'").body[0])
+        elif k == "del_field" and len(fields) > 0:
+            cls.body.remove(r.choice(fields))
+            if not cls.body:
+                cls.body = [ast.Pass()]
+        else:
+            return None
+        ast.fix_missing_locations(tree)
+        try:
+            return "struct_" + k, ast.unparse(tree) + "\n"
+        except Exception:  # noqa: BLE001
+            return None
+
     def mutate(self, func_src: str) -> tuple[str, str] | None:
         """returns (kind, new source of the function) or None if this mutation was not applicable"""
         r = self.rng
@@ -344,6 +388,10 @@ class Mutator:
             tree = ast.parse(func_src)
         except SyntaxError:
             return None
+        classes = [n for n in ast.walk(tree) if isinstance(n, ast.ClassDef) and n.decorator_list
+                   and ast.unparse(n.decorator_list[-1]).startswith("guppy.struct")]
+        if classes and r.random() < 0.1:
+            return self._mutate_struct(tree, r.choice(classes))
         cands = [n for n in ast.walk(tree) if isinstance(n, ast.FunctionDef) and n.decorator_list
                  and ast.unparse(n.decorator_list[-1]).startswith(("guppy", "compile_guppy"))]
         if not cands:
